@@ -229,6 +229,78 @@ theorem sha_dist_form_independent (a b : Addr) :
     convert (distSha (fromRecordKey (toRecordKey a)) b) = convert (distSha a b) := by
   unfold distSha; rw [(dist_form_independent _ a b).1]
 
+/-! ## The same decisions over addresses: the composition hash → XOR → (decimal detour) → comparison, where a
+fallback of `convert_distance_to_u256` to zero would show (it cannot: `sha_convert_exact`) -/
+
+/-- the XOR metric on addresses: SHA-256 digests of the address bytes, big-endian -/
+def xorDist (a b : Addr) : Nat := SafeNet.Sha256.hashNat (asBytes a) ^^^ SafeNet.Sha256.hashNat (asBytes b)
+
+theorem convDist_eq_xor (t p : Addr) : convDist t p = xorDist t p := sha_convert_exact t p
+
+/-- `get_peers_in_range` keeps exactly the peers whose XOR distance to the target is `≤ range`, in their original
+order — the comparison the code makes on `convert_distance_to_u256(..)` IS the comparison of the XOR integers. -/
+theorem inRange_addr_is_xor_filter (target : Addr) (ps : List APeer) (range : Nat) :
+    getPeersInRangeAddr target ps range = ps.filter (fun p => decide (xorDist target p.2 ≤ range)) := by
+  unfold getPeersInRangeAddr
+  congr 1
+  funext p
+  simp [within, inRangeLe, convDist_eq_xor]
+
+/-- `calculate_get_closest_peers` with a range: exactly the peers within that XOR distance -/
+theorem closest_range_addr_is_xor_filter (target : Addr) (ps : List APeer) (num : Option Nat) (r : Nat) :
+    calcClosestAddr target ps num (some r) = ps.filter (fun p => decide (xorDist target p.2 ≤ r)) := by
+  have hf : (fun p : APeer => within closestRangeLe (convDist target p.2) r) =
+      (fun p : APeer => decide (xorDist target p.2 ≤ r)) := by
+    funext p; simp [within, closestRangeLe, convDist_eq_xor]
+  unfold calcClosestAddr
+  cases num <;> simp only [hf]
+
+/-- `sort_peers_by_key` over addresses: ascending in the XOR metric, a sub-permutation of the input, exactly the
+requested number when that many are known (and at least `CLOSE_GROUP_SIZE` are), and every peer left out is at least
+as far as every peer returned. -/
+theorem sort_addr_spec (target : Addr) (ps : List APeer) (n : Nat) (r : List APeer)
+    (h : sortPeersByKeyAddr target ps n = some r) :
+    r.length = min n ps.length ∧
+    r.Pairwise (fun a b => xorDist target a.2 ≤ xorDist target b.2) ∧
+    (∀ x ∈ r, x ∈ ps) ∧
+    (closeGroupSize ≤ ps.length) ∧ (n ≤ ps.length → r.length = n) := by
+  unfold sortPeersByKeyAddr at h
+  split at h
+  · cases h
+  · rename_i hlen
+    injection h with h
+    subst h
+    have hperm := List.mergeSort_perm (ps.map (fun p => (p, distSha target p.2))) (fun a b => decide (a.2 ≤ b.2))
+    have hsorted : ((ps.map (fun p => (p, distSha target p.2))).mergeSort (fun a b => decide (a.2 ≤ b.2))).Pairwise
+        (fun a b => a.2 ≤ b.2) := by
+      have := List.pairwise_mergeSort (le := fun (a b : APeer × Nat) => decide (a.2 ≤ b.2))
+        (fun a b c hab hbc => by simp at *; omega) (fun a b => by simp; omega)
+        (ps.map (fun p => (p, distSha target p.2)))
+      exact this.imp (fun h => by simpa using h)
+    have hmem : ∀ x ∈ (ps.map (fun p => (p, distSha target p.2))).mergeSort (fun a b => decide (a.2 ≤ b.2)),
+        x.1 ∈ ps ∧ x.2 = xorDist target x.1.2 := by
+      intro x hx
+      have := (hperm.mem_iff).1 hx
+      obtain ⟨p, hp, rfl⟩ := List.mem_map.1 this
+      exact ⟨hp, rfl⟩
+    have hlen' : (((ps.map (fun p => (p, distSha target p.2))).mergeSort (fun a b => decide (a.2 ≤ b.2))).map (·.1)).length
+        = ps.length := by
+      rw [List.length_map, hperm.length_eq, List.length_map]
+    refine ⟨by rw [List.length_take, hlen'], ?_, ?_, by omega, ?_⟩
+    · apply List.Pairwise.sublist (List.take_sublist _ _)
+      rw [List.pairwise_map]
+      refine hsorted.imp_of_mem ?_
+      intro a b ha hb hab
+      rw [← (hmem a ha).2, ← (hmem b hb).2]
+      exact hab
+    · intro x hx
+      have hx' := List.mem_of_mem_take hx
+      obtain ⟨y, hy, rfl⟩ := List.mem_map.1 hx'
+      exact (hmem y hy).1
+    · intro hn
+      rw [List.length_take, hlen']
+      omega
+
 /-! ## The replication fetcher's closeness decision (which queued records are fetched first) -/
 
 /-- `ReplicationFetcher::next_keys_to_fetch` is a closeness decision too: for every distance function (in
@@ -266,6 +338,9 @@ end SafeNet.Props.C11
 #print axioms SafeNet.Props.C11.sha_dist_zero_iff
 #print axioms SafeNet.Props.C11.sha_dist_zero_only_equal
 #print axioms SafeNet.Props.C11.sha_dist_form_independent
+#print axioms SafeNet.Props.C11.inRange_addr_is_xor_filter
+#print axioms SafeNet.Props.C11.closest_range_addr_is_xor_filter
+#print axioms SafeNet.Props.C11.sort_addr_spec
 #print axioms SafeNet.Props.C11.fetch_order_is_by_distance
 #print axioms SafeNet.Props.C11.sort_sorted
 #print axioms SafeNet.Props.C11.sort_perm
